@@ -443,6 +443,8 @@ async fn subscribe(
                 }
             }
         }
+        // the core must find the channel closed, not full, while we wait for its answer
+        drop(rx);
         if let Err(e) = wb_unsub.unsubscribe(client_id, transaction_id).await {
             error!("Error stopping subscription: {e}");
         }
@@ -507,6 +509,8 @@ async fn psubscribe(
                 }
             }
         }
+        // the core must find the channel closed, not full, while we wait for its answer
+        drop(rx);
         if let Err(e) = wb_unsub.unsubscribe(client_id, transaction_id).await {
             error!("Error stopping subscription: {e}");
         }
@@ -559,6 +563,8 @@ async fn subscribels_root(
                 }
             }
         }
+        // the core must find the channel closed, not full, while we wait for its answer
+        drop(rx);
         if let Err(e) = wb_unsub.unsubscribe_ls(client_id, transaction_id).await {
             error!("Error stopping subscription: {e}");
         }
@@ -614,6 +620,8 @@ async fn subscribels(
                 }
             }
         }
+        // the core must find the channel closed, not full, while we wait for its answer
+        drop(rx);
         if let Err(e) = wb_unsub.unsubscribe_ls(client_id, transaction_id).await {
             error!("Error stopping subscription: {e}");
         }
